@@ -9,7 +9,7 @@ import oracle
 
 RULE = ("files whose modification times sit on the grid a-1, a, a+1, b-1, b, b+1 around the interval [a, b] of each "
         "literal, at month/year/leap-day boundaries x literals at the four precisions, both `-` and `:` date "
-        "separators, quoted and unquoted x the eight comparison operators x three fixed-offset zones; relative "
+        "separators, quoted and unquoted x the eight comparison operators x three fixed-offset zones and three zones with daylight-saving rules (POSIX TZ strings; mtimes in both periods); relative "
         "literals (today, yesterday, +N/-N) with mtimes set relative to the real clock; (a) CLI rows and the printed "
         "`modified` column vs the Lean model, (b) oracle: Python datetime interval arithmetic. distinct = "
         "(zone, literal, operator); nontrivial = the operator separates the grid")
@@ -37,13 +37,12 @@ def run(ctx):
     quick = ctx.tier == "quick"
     scratch = common.new_scratch()
     try:
-        zones = list(fstree.TZ_OFFSETS)
-        rounds = 10 if quick else 60
+        zones = list(fstree.TZ_OFFSETS) + list(fstree.DST_ZONES)
+        rounds = 12 if quick else 84
         for rd in range(rounds):
             r = ctx.rng.fork()
             tz = zones[rd % len(zones)]
-            off = fstree.TZ_OFFSETS[tz]
-            y, mo, d = DATES[rd % len(DATES)]
+            y, mo, d = DATES[(rd + rd // len(zones)) % len(DATES)]
             lits = lit_variants(y, mo, d, r)
             # grid of local times around every interval edge -> mtimes (UTC seconds)
             ents = []
@@ -52,9 +51,12 @@ def run(ctx):
                 a, b = oracle.date_interval(text, tz)
                 for t in (a - 1, a, a + 1, b - 1, b, b + 1, a - 86400, b + 86400):
                     times.add(t)
-            for i, t in enumerate(sorted(times)):
-                ents.append({"path": "f%03d" % i, "kind": "f", "size": 1, "mode": 0o644, "mtime": t - off,
+            # the instants whose local reading is t (none in a spring-forward gap, two in a fall-back hour)
+            inst = sorted({m for t in times for m in fstree.instants_of_local(tz, t)})
+            for i, m in enumerate(inst):
+                ents.append({"path": "f%03d" % i, "kind": "f", "size": 1, "mode": 0o644, "mtime": m,
                              "mtime_ns": [0, 500000000, 999999999, 1][i % 4]})
+            ctx.hist("zone_kind", "dst" if tz in fstree.DST_ZONES else "fixed")
             snap = corr.Snap(scratch, ents, subdir="t%d" % rd, tz=tz)
             # the printed column
             q = "select name, modified from . into list"
@@ -90,8 +92,11 @@ def run(ctx):
             common.rm_tree(snap.root)
         # relative literals under the real clock
         for tz in zones:
-            off = fstree.TZ_OFFSETS[tz]
             now = int(time.time())
+            off = fstree.tz_off(tz, now)
+            if any(fstree.tz_off(tz, now + k * 86400) != off for k in (-5, -3, -1, 1, 3, 5)):
+                ctx.notes.append("relative literals skipped for %s: a daylight-saving transition is within five days" % tz)
+                continue
             if (now + off) % 86400 > 86400 - 120:
                 ctx.notes.append("relative literals skipped for %s: too close to local midnight" % tz)
                 continue
